@@ -974,6 +974,83 @@ func vC16Stress(seed int64, size, workers, opsPer int) map[string]any {
 		"desc": map[string]any{"size": size, "workers": workers, "ops_per_worker": opsPer, "final_len": c.Len(), "reachable": n}}
 }
 
+
+// CompareAndSwap / CompareAndDelete atomicity under contention (Go side only):
+// every worker reads the current box of a hot key and tries to replace it by a
+// box holding count+1.  If a CAS succeeds only when the identical current value
+// is present, every success extends the chain by exactly one, so at the end the
+// stored count equals the number of successful CAS calls (no lost update, no
+// success against a value that was no longer current).  A second phase does the
+// same with CompareAndDelete + Add of a successor.
+type vC16Box struct {
+	n    int64
+	prev *vC16Box
+}
+
+func vC16CasStress(seed int64, workers, iters int) map[string]any {
+	c := New(4096) // far from capacity: no eviction interferes
+	keys := []uint64{0, 1, 0x9E3779B97F4A7C15, uint64(seed)*2654435761 + 7}
+	for _, k := range keys {
+		c.Add(k, &vC16Box{})
+	}
+	succ := make([]atomic.Int64, len(keys))
+	var wg sync.WaitGroup
+	for w := 0; w < workers; w++ {
+		wg.Add(1)
+		go func(w int) {
+			defer wg.Done()
+			r := rand.New(rand.NewSource(seed*977 + int64(w)))
+			for i := 0; i < iters; i++ {
+				ki := r.Intn(len(keys))
+				k := keys[ki]
+				v, ok := c.Get(k)
+				if !ok {
+					continue
+				}
+				old := v.(*vC16Box)
+				nw := &vC16Box{n: old.n + 1, prev: old}
+				if i%5 == 4 {
+					// delete-then-republish: only the deleter may publish the successor
+					if c.CompareAndDelete(k, old) {
+						succ[ki].Add(1)
+						c.Add(k, nw)
+					}
+					continue
+				}
+				if c.CompareAndSwap(k, old, nw) {
+					succ[ki].Add(1)
+				}
+			}
+		}(w)
+	}
+	wg.Wait()
+	goFail := ""
+	var total int64
+	for ki, k := range keys {
+		v, ok := c.Get(k)
+		if !ok {
+			goFail = fmt.Sprintf("key %d vanished although nothing removes it for good", k)
+			break
+		}
+		b := v.(*vC16Box)
+		total += succ[ki].Load()
+		if b.n != succ[ki].Load() && goFail == "" {
+			goFail = fmt.Sprintf("key %d: %d CompareAndSwap/CompareAndDelete calls reported success but the stored chain has length %d (a CAS acted although the identical value was no longer current)", k, succ[ki].Load(), b.n)
+		}
+		// the chain is intact: n decreases by one per link
+		for p := b; p != nil && goFail == ""; p = p.prev {
+			if p.prev != nil && p.prev.n != p.n-1 {
+				goFail = fmt.Sprintf("key %d: broken value chain at %d", k, p.n)
+			}
+		}
+	}
+	if c.Len() != len(keys) && goFail == "" {
+		goFail = fmt.Sprintf("Len()=%d after the CAS stress, %d keys stored", c.Len(), len(keys))
+	}
+	return map[string]any{"k": "go-cas-stress", "go_fail": goFail, "nontrivial": total > 0,
+		"desc": map[string]any{"workers": workers, "iters": iters, "successful_cas": total}}
+}
+
 // Finding swc-sparse-scan-race: three Cache.Add calls in flight on a sparse
 // cache.  Two writers are held in the middle of their spill scan (the test
 // owns the lock of the segment they reach next — any reader or writer of that
@@ -1020,9 +1097,10 @@ func vC16RaceSparse() map[string]any {
 		"desc": map[string]any{"schedule": "Add(x@5); [Add(y@6) scans to seg 2, held] [Add(a@0) scans to seg 2, held] Add(o@1) evicts x,y; release", "observed": res}}
 }
 
-// Finding clear-count-race: SegmentUInt64Map.Clear stores 0 into the counter
-// after it has released every segment; a Set that lands in an already
-// cleared segment before that store is counted out for good.
+// Regression for clear-count-race (fixed in /repo by aae41ee): Clear used to
+// store 0 into the counter after it had released every segment, so a Set that
+// landed in an already cleared segment before that store was counted out for
+// good.  Must pass strictly now.
 func vC16RaceClear() map[string]any {
 	m := NewSegmentUInt64Map[any](4, 0)
 	last := len(m.segments) - 1
@@ -1043,8 +1121,8 @@ func vC16RaceClear() map[string]any {
 	if int(m.Len()) != n {
 		goFail = fmt.Sprintf("Clear() concurrent with Set: all calls returned, Len()=%d but %d entries reachable", m.Len(), n)
 	}
-	return map[string]any{"k": "go-race-clear", "go_fail": goFail, "fkey": "clear-count-race", "nontrivial": true,
-		"desc": map[string]any{"schedule": "Clear() clears segments 0..14, waits for 15; Set(k@0); release; Clear stores count=0", "len": m.Len(), "reachable": n}}
+	return map[string]any{"k": "go-race-clear", "go_fail": goFail, "nontrivial": true,
+		"desc": map[string]any{"schedule": "Clear() clears segments 0..14, waits for 15; Set(k@0); release; Clear finishes", "len": m.Len(), "reachable": n}}
 }
 
 func TestVerifC16Seg(t *testing.T) {
@@ -1070,6 +1148,13 @@ func TestVerifC16Seg(t *testing.T) {
 	for i := 0; i < rounds; i++ {
 		size := []int{1, 4, 32, 300}[i%4]
 		tr.emit(vC16Stress(seed+int64(i), size, 8, ops))
+	}
+	casRounds, casIters := 3, 30000
+	if os.Getenv("VERIF_TIER") == "thorough" {
+		casRounds, casIters = 8, 200000
+	}
+	for i := 0; i < casRounds; i++ {
+		tr.emit(vC16CasStress(seed+int64(i), 8, casIters))
 	}
 	tr.emit(vC16RaceSparse())
 	tr.emit(vC16RaceClear())
